@@ -396,6 +396,30 @@ func (l *lgen) randSimil() simil {
 	return t
 }
 
+// randDyadic: an exact similarity whose scale is a power of two far from 1 - the image has the same exact degeneracies
+// as the lattice (scaling by a power of two commutes with every IEEE operation short of overflow and underflow), but
+// its magnitude is 1e-12 .. 1e9: what depends on an absolute epsilon, on a float32, on a squared length where a length
+// was meant, shows there and nowhere on small integers. With offset, a tiny image also sits far from the origin
+// (closely spaced vertices at a large offset: where formulas cancel) - only for the families that make no claim which
+// depends on clearance relative to the magnitude.
+func (l *lgen) randDyadic(offset bool) simil {
+	exps := []int{-40, -30, -20, -10, 20, 30}
+	e := exps[l.r.Intn(len(exps))]
+	t := simil{S: math.Ldexp(1, e), Sym: l.r.Intn(8)}
+	if offset && (e == -10 || e == -20) {
+		// The properties grant measures an error of 1e-9 of the coordinate magnitude. In lattice units that is
+		// 1e-9 * |T| / S, which must stay below one unit for the verdict to mean anything: |T| <= 1024 for 2^-10
+		// and |T| <= 400 for 2^-20 (every image ordinate is exactly representable: at most 31 + 10 bits).
+		lim := 1024
+		if e == -20 {
+			lim = 400
+		}
+		t.Tx = float64(l.r.Intn(lim+1)) * []float64{1, -1}[l.r.Intn(2)]
+		t.Ty = float64(l.r.Intn(lim+1)) * []float64{1, -1}[l.r.Intn(2)]
+	}
+	return t
+}
+
 func (t simil) toCase() []interface{} {
 	return []interface{}{bitsHex(t.S), bitsHex(t.Tx), bitsHex(t.Ty), t.Sym}
 }
